@@ -1,4 +1,5 @@
 import Autog.Model.Phase3
+import Autog.Properties.C04
 /-! # C12 — the reported crossing count is the crossing count of the drawing
 
     (1) Counter exactness, for all bilayers: the function the model of `countCrossings` calls
@@ -39,6 +40,57 @@ theorem C12_crossings_def (e : Nat × Nat) (es : List (Nat × Nat)) :
 
 /-- the count does not depend on the order in which the edges are listed -/
 theorem C12_crossings_order_irrelevant : type_of% @crossings_perm := @crossings_perm
+
+/-! ## the order of a band can be read off the x coordinates -/
+
+/-- centres `x + w/2` -/
+def centres : List Rat → List Rat → List Rat
+  | x :: xs, w :: ws => (x + w / 2) :: centres xs ws
+  | _, _ => []
+
+def StrictlyIncreasing : List Rat → Prop
+  | a :: b :: l => a < b ∧ StrictlyIncreasing (b :: l)
+  | _ => True
+
+/-- with NodeSpacing > 0 and non-negative widths, separated nodes have strictly increasing centres: the order of the layer
+    list IS the left-to-right order of the node (and bend) centres in the drawing, so two segments between adjacent bands
+    cross in the drawing exactly when their position pairs are inverted -/
+theorem C12_centres_increasing (ns : Rat) (hns : 0 < ns) : ∀ (xs ws : List Rat), xs.length = ws.length → (∀ w ∈ ws, 0 ≤ w) →
+    Phase4Simple.Separated ns xs ws → StrictlyIncreasing (centres xs ws)
+  | [], _, _, _, _ => trivial
+  | [_], [], h, _, _ => by simp at h
+  | [_], [_], _, _, _ => trivial
+  | [_], _ :: _ :: _, h, _, _ => by simp at h
+  | x :: y :: xs, [], h, _, _ => by simp at h
+  | x :: y :: xs, [w], h, _, _ => by simp at h
+  | x :: y :: xs, w :: w2 :: ws, h, hw, hs => by
+    simp only [Phase4Simple.Separated] at hs
+    simp only [centres, StrictlyIncreasing]
+    have h1 := hw w (List.mem_cons_self ..)
+    have h2 := hw w2 (by simp)
+    refine ⟨by grind, ?_⟩
+    have := C12_centres_increasing ns hns (y :: xs) (w2 :: ws) (by simpa using h)
+      (fun a ha => hw a (List.mem_cons_of_mem _ ha)) hs.2
+    simpa [centres] using this
+
+/-- for VAlign and PackRight (any widths ≥ 0, NodeSpacing > 0) the model's coordinates keep the order of every layer list -/
+theorem C12_valign_keeps_order (ns : Rat) (hns : 0 < ns) (g : G) (hwf : LayersWF g) (l : Layer) (hl : l ∈ g.layers.toList)
+    (hw : ∀ w ∈ widthsOf g l, 0 ≤ w) :
+    StrictlyIncreasing (centres (xsOf (execVerticalAlign ns g) l) (widthsOf (execVerticalAlign ns g) l)) := by
+  have hsep := C04_valign_separated ns g hwf l hl
+  have hcoord := C16_valign_coordinates ns g hwf l hl
+  apply C12_centres_increasing ns hns _ _ _ _ hsep
+  · rw [hcoord.1, hcoord.2]; simp [Phase4Simple.valign]
+  · rw [hcoord.2]; exact hw
+
+theorem C12_packright_keeps_order (ns : Rat) (hns : 0 < ns) (g : G) (hwf : LayersWF g) (l : Layer) (hl : l ∈ g.layers.toList)
+    (hw : ∀ w ∈ widthsOf g l, 0 ≤ w) :
+    StrictlyIncreasing (centres (xsOf (execPackRight ns g) l) (widthsOf (execPackRight ns g) l)) := by
+  have hsep := C04_packright_separated ns g hwf l hl
+  have hcoord := C16_packright_coordinates ns g hwf l hl
+  apply C12_centres_increasing ns hns _ _ _ _ hsep
+  · rw [hcoord.1, hcoord.2]; simp [packRightRaw_eq]
+  · rw [hcoord.2]; exact hw
 
 example : countCrossingsModel (ceilLog2 (min 3 3)) 3 3 [(0, 2), (1, 0), (2, 1)] = 2 := by decide +kernel
 example : crossings [(0, 2), (1, 0), (2, 1)] = 2 := by decide
